@@ -88,7 +88,7 @@ CONFIG = {
 }
 
 TOTALS = {
-    "quick": {"prefix_docs": 72, "max_len": 400, "valid": 1600, "edit": 4000, "dup": 1600, "row": 1600, "page": 1200, "soup": 8000},
+    "quick": {"prefix_docs": 48, "max_len": 400, "valid": 1600, "edit": 3200, "dup": 1200, "row": 1200, "page": 800, "soup": 8000},
     "thorough": {"prefix_docs": 320, "max_len": 800, "valid": 12000, "edit": 50000, "dup": 15000, "row": 10000, "page": 8000, "soup": 30000,
                  "atheris_runs": 160000},
 }
